@@ -149,10 +149,30 @@ fn apply(z: &mut MZone, d: &Defect) -> bool {
             }
             let cur = z.types[z.trans[n - 1].1].clone();
             let mut t = cur.clone();
-            match field % 3 {
+            match field % 6 {
                 0 => t.off = if t.off == i32::MAX { t.off - 1 } else { t.off + 1 },
                 1 => t.dst = !t.dst,
-                _ => t.name = if t.name.as_deref() == Some("XXX") { None } else { Some("XXX".into()) },
+                2 => t.name = if t.name.as_deref() == Some("XXX") { None } else { Some("XXX".into()) },
+                // a strict prefix / an extension / a change of the last character of the designation
+                3 => match t.name.clone() {
+                    Some(n) if n.len() > 3 => t.name = Some(n[..n.len() - 1].to_string()),
+                    Some(n) => t.name = Some(format!("{n}X")),
+                    None => t.name = Some("AAA".into()),
+                },
+                4 => match t.name.clone() {
+                    Some(n) if n.len() < 7 => t.name = Some(format!("{n}0")),
+                    Some(n) => t.name = Some(n[..6].to_string()),
+                    None => t.name = Some("AAAAAAA".into()),
+                },
+                _ => match t.name.clone() {
+                    Some(n) => {
+                        let mut b = n.into_bytes();
+                        let k = b.len() - 1;
+                        b[k] = if b[k] == b'Z' { b'Y' } else { b'Z' };
+                        t.name = Some(String::from_utf8(b).unwrap());
+                    }
+                    None => t.name = Some("ZZZ".into()),
+                },
             }
             z.types.push(t);
             z.trans[n - 1].1 = z.types.len() - 1;
@@ -294,7 +314,7 @@ pub fn arb_defect() -> SBoxedStrategy<Defect> {
         2 => proptest::sample::select(vec![0i32, 2, -2, i32::MIN, i32::MAX, 3]).prop_map(|c| Defect::LeapFirstCorr { c }),
         2 => (any::<u32>(), proptest::sample::select(vec![0i32, 2, -2, 3])).prop_map(|(k, step)| Defect::LeapStep { k, step }),
         2 => any::<u32>().prop_map(|k| Defect::LeapSpacing { k }),
-        3 => (0u8..3).prop_map(|field| Defect::RuleMismatch { field }),
+        4 => (0u8..6).prop_map(|field| Defect::RuleMismatch { field }),
     ]
     .sboxed()
 }
